@@ -1,7 +1,690 @@
-//! C33 — not implemented yet.
-use vmon::report::Args;
+//! C33 — manifest naming and latest-version discovery are exact.
+//!
+//! Pure part: `ManifestNamingScheme` functions on boundary / random versions.
+//! Store part: random `_versions/` directory contents on a monitored in-memory store (lexically
+//! ordered or not, listing order as is / reversed / shuffled) and on a local temp dir; the oracle
+//! is `max(published versions)` computed from the file names the generator wrote.
+use crate::common::*;
+use bytes::Bytes;
+use futures::TryStreamExt;
+use lance_io::object_store::ObjectStore;
+use lance_table::format::DETACHED_VERSION_MASK;
+use lance_table::io::commit::{
+    migrate_scheme_to_v2, CommitHandler, ConditionalPutCommitHandler, ManifestNamingScheme, RenameCommitHandler,
+};
+use object_store::path::Path;
+use object_store::ObjectStore as OSObjectStore;
+use serde_json::{json, Value};
+use std::collections::{BTreeMap, BTreeSet};
+use std::sync::atomic::{AtomicBool, Ordering};
+use std::sync::Arc;
+use vmon::prng::Rng;
+use vmon::report::{Args, Report};
+use vmon::store::{ListOrder, World};
 
-pub fn run(_args: &Args) -> i32 {
-    eprintln!("HARNESS-ERROR C33 not implemented");
-    2
+type Fail = (String, String);
+const V1: ManifestNamingScheme = ManifestNamingScheme::V1;
+const V2: ManifestNamingScheme = ManifestNamingScheme::V2;
+
+/// selftest: report a version one lower than the one observed
+static CORRUPT_LATEST: AtomicBool = AtomicBool::new(false);
+
+fn sname(s: ManifestNamingScheme) -> &'static str {
+    match s {
+        ManifestNamingScheme::V1 => "V1",
+        ManifestNamingScheme::V2 => "V2",
+    }
 }
+
+fn fname(s: ManifestNamingScheme, v: u64) -> String {
+    s.manifest_path(&Path::from("base"), v).filename().unwrap().to_string()
+}
+
+// ------------------------------------------------------------------------------------------
+// pure naming checks
+
+fn boundary_versions() -> Vec<u64> {
+    let mut v: BTreeSet<u64> = BTreeSet::new();
+    v.extend([0, 1, 2, 9, 10, 11, 99, 100, 101]);
+    for k in 1..=63u32 {
+        let p = 1u64 << k;
+        v.extend([p - 1, p, p + 1]);
+    }
+    let mut p10 = 1u64;
+    for _ in 0..19 {
+        p10 *= 10; // up to 10^19
+        v.extend([p10 - 1, p10, p10 + 1]);
+    }
+    for d in 0..4 {
+        v.insert(u64::MAX - d);
+        v.insert((1u64 << 63) - 1 - d);
+        v.insert((1u64 << 63) + d);
+        v.insert(10_000_000_000_000_000_000u64 + d);
+        v.insert(10_000_000_000_000_000_000u64 - 1 - d);
+    }
+    v.into_iter().collect()
+}
+
+fn is_detached(v: u64) -> bool {
+    v & DETACHED_VERSION_MASK != 0
+}
+
+fn check_version_naming(v: u64) -> Result<(), Fail> {
+    let base = Path::from("some/base");
+    for s in [V1, V2] {
+        let p = s.manifest_path(&base, v);
+        let name = p.filename().unwrap().to_string();
+        if !p.as_ref().starts_with("some/base/_versions/") {
+            return Err((format!("naming:{}:path-not-under-versions-dir", sname(s)), format!("{p}")));
+        }
+        if is_detached(v) {
+            // never mistaken for an attached version, by either scheme
+            for ps in [V1, V2] {
+                if let Some(got) = ps.parse_version(&name) {
+                    return Err((
+                        format!("naming:detached-name-parses-as-attached:{}", sname(ps)),
+                        format!("{name} (detached {v}) parses as {got} under {}", sname(ps)),
+                    ));
+                }
+            }
+            if ManifestNamingScheme::detect_scheme(&name) != Some(V2) {
+                return Err(("naming:detached-name-scheme-not-v2".into(), name));
+            }
+            if !name.starts_with('d') || !name.ends_with(".manifest") || name[1..name.len() - 9].parse::<u64>() != Ok(v) {
+                return Err(("naming:detached-name-does-not-carry-version".into(), format!("{name} for {v}")));
+            }
+        } else {
+            let got = s.parse_version(&name);
+            if got != Some(v) {
+                return Err((
+                    format!("naming:{}:parse-does-not-invert-name", sname(s)),
+                    format!("version {v} -> {name} -> {got:?}"),
+                ));
+            }
+            if ManifestNamingScheme::detect_scheme(&name) != Some(s) {
+                return Err((
+                    format!("naming:{}:detect_scheme-wrong", sname(s)),
+                    format!("{name} detected as {:?}", ManifestNamingScheme::detect_scheme(&name)),
+                ));
+            }
+            // staging name = final path + "-" + uuid
+            let staging = format!("{name}-6ba7b810-9dad-11d1-80b4-00c04fd430c8");
+            if ManifestNamingScheme::detect_scheme_staging(&staging) != s {
+                return Err((format!("naming:{}:detect_scheme_staging-wrong", sname(s)), staging));
+            }
+            if ManifestNamingScheme::detect_scheme(&staging).is_some() {
+                return Err((format!("naming:{}:staging-name-detected-as-manifest", sname(s)), staging));
+            }
+            if s == V2 && name.len() != 29 {
+                return Err(("naming:V2:name-not-20-digits".into(), name));
+            }
+        }
+    }
+    Ok(())
+}
+
+/// V2 names sort in reverse version order; detached names sort after every attached name.
+fn check_order(a: u64, b: u64) -> Result<(), Fail> {
+    if is_detached(a) || is_detached(b) || a == b {
+        return Ok(());
+    }
+    let (lo, hi) = if a < b { (a, b) } else { (b, a) };
+    let (nlo, nhi) = (fname(V2, lo), fname(V2, hi));
+    if !(nhi < nlo) {
+        return Err(("naming:V2:names-not-in-reverse-version-order".into(), format!("{hi} -> {nhi}, {lo} -> {nlo}")));
+    }
+    let d = fname(V2, lo | DETACHED_VERSION_MASK);
+    if !(d > nlo && d > nhi) {
+        return Err(("naming:V2:detached-name-sorts-before-attached".into(), d));
+    }
+    Ok(())
+}
+
+fn pure_part(report: &Report, sink: &Sink, n_random: u64) {
+    let bv = boundary_versions();
+    let mut checked = 0u64;
+    let mut note = |r: Result<(), Fail>, w: Value| {
+        checked += 1;
+        if let Err((s, d)) = r {
+            sink.violation_lazy(&s, &d, || json!({"part": "naming", "input": w, "detail": d}));
+        }
+    };
+    for v in &bv {
+        note(check_version_naming(*v), json!({"version": v}));
+        report.case(Some(hash_of(&("bv", v))));
+    }
+    for (i, a) in bv.iter().enumerate() {
+        for b in [bv.get(i + 1), bv.get(i + 7), bv.last()].into_iter().flatten() {
+            note(check_order(*a, *b), json!({"versions": [a, b]}));
+        }
+    }
+    report.set("boundary_versions", json!(bv.len()));
+    let mut rng = Rng::for_case(report.seed, 0x33);
+    for i in 0..n_random {
+        let v = match i % 4 {
+            0 => rng.next_u64(),
+            1 => rng.next_u64() >> rng.below(64),
+            2 => rng.next_u64() & !DETACHED_VERSION_MASK,
+            _ => rng.below(1_000_000),
+        };
+        let w = rng.next_u64() >> rng.below(64);
+        note(check_version_naming(v), json!({"version": v}));
+        note(check_order(v & !DETACHED_VERSION_MASK, w & !DETACHED_VERSION_MASK), json!({"versions": [v, w]}));
+        report.case(Some(hash_of(&("rv", v))));
+    }
+    report.count("naming_checks", checked);
+}
+
+// ------------------------------------------------------------------------------------------
+// directory contents
+
+#[derive(Clone, Debug)]
+struct Dir {
+    scheme: ManifestNamingScheme,
+    published: BTreeSet<u64>,
+    detached: BTreeSet<u64>,
+    staging: Vec<String>,
+    junk: Vec<String>,
+}
+
+impl Dir {
+    fn gen(rng: &mut Rng) -> Self {
+        let scheme = if rng.bool() { V1 } else { V2 };
+        let mut published = BTreeSet::new();
+        let top = match rng.below(5) {
+            0 => rng.below(6) + 1,
+            1 => rng.below(3000) + 1,
+            2 => (1u64 << 32) + rng.below(10),
+            3 => (1u64 << 63) - 1 - rng.below(3),
+            _ => rng.below(200) + 1,
+        };
+        match rng.below(4) {
+            0 => {
+                // dense 1..=n (n small enough)
+                for v in 1..=top.min(60) {
+                    published.insert(v);
+                }
+            }
+            1 => {
+                // after cleanup: a dense tail
+                let n = rng.below(12) + 1;
+                for k in 0..n {
+                    published.insert(top.saturating_sub(k).max(1));
+                }
+            }
+            2 => {
+                // sparse
+                let n = rng.below(25) + 1;
+                for _ in 0..n {
+                    published.insert(rng.below(top) + 1);
+                }
+            }
+            _ => {
+                // digit-length boundaries (9 < 10 < 100 as strings!)
+                for v in [1u64, 2, 9, 10, 11, 99, 100, 101, 999, 1000] {
+                    if rng.chance(2, 3) {
+                        published.insert(v);
+                    }
+                }
+                published.insert(rng.below(1200) + 1);
+            }
+        }
+        let mut detached = BTreeSet::new();
+        if scheme == V2 && rng.chance(1, 3) {
+            for _ in 0..rng.urange(1, 4) {
+                detached.insert(DETACHED_VERSION_MASK | (rng.next_u64() >> 1));
+            }
+        }
+        let mut staging = vec![];
+        if rng.chance(1, 2) {
+            for _ in 0..rng.urange(1, 3) {
+                // a staged manifest of a version that may or may not exist (often the next one)
+                let v = match rng.below(3) {
+                    0 => published.iter().next_back().copied().unwrap_or(1).saturating_add(1) & !DETACHED_VERSION_MASK,
+                    1 => *published.iter().next().unwrap_or(&1),
+                    _ => rng.below(5000) + 1,
+                };
+                let u = uuid_from(rng);
+                staging.push(format!("{}-{}", fname(scheme, v), u));
+            }
+        }
+        let mut junk = vec![];
+        if rng.chance(1, 2) {
+            let pool = [
+                format!(".tmp_{}_{}", fname(scheme, 7), uuid_from(rng)),
+                format!(".tmp_{}", uuid_from(rng)),
+                "README".to_string(),
+                "notes.txt".to_string(),
+                "0".to_string(),
+                "99999".to_string(),
+                format!("{}.bak", fname(scheme, 3)),
+                "manifest.bak".to_string(),
+            ];
+            for _ in 0..rng.urange(1, 3) {
+                junk.push(rng.pick(&pool).clone());
+            }
+            junk.sort();
+            junk.dedup();
+        }
+        Self { scheme, published, detached, staging, junk }
+    }
+    fn files(&self) -> Vec<String> {
+        let mut f: Vec<String> = self.published.iter().map(|v| fname(self.scheme, *v)).collect();
+        f.extend(self.detached.iter().map(|v| fname(self.scheme, *v)));
+        f.extend(self.staging.iter().cloned());
+        f.extend(self.junk.iter().cloned());
+        f
+    }
+    fn max(&self) -> u64 {
+        *self.published.iter().next_back().unwrap()
+    }
+    fn flags(&self) -> String {
+        let mut f = vec![];
+        if !self.detached.is_empty() {
+            f.push("detached-present");
+        }
+        if !self.staging.is_empty() {
+            f.push("staging-present");
+        }
+        if !self.junk.is_empty() {
+            f.push("junk-present");
+        }
+        if f.is_empty() {
+            "manifests-only".into()
+        } else {
+            f.join("+")
+        }
+    }
+    fn brief(&self) -> Value {
+        json!({"scheme": sname(self.scheme), "published": self.published.iter().take(40).collect::<Vec<_>>(), "published_count": self.published.len(),
+            "detached": self.detached, "staging": self.staging, "junk": self.junk})
+    }
+}
+
+fn uuid_from(rng: &mut Rng) -> String {
+    let b = rng.bytes(16);
+    let mut arr = [0u8; 16];
+    arr.copy_from_slice(&b);
+    uuid::Builder::from_random_bytes(arr).into_uuid().to_string()
+}
+
+fn err_class(e: &str) -> &'static str {
+    if e.contains("Found V2 manifest in a V1 manifest directory") {
+        "error-v2-manifest-in-v1-directory"
+    } else if e.contains("multiple manifest naming schemes") {
+        "error-multiple-schemes"
+    } else if e.to_lowercase().contains("not found") {
+        "error-not-found"
+    } else {
+        "error-other"
+    }
+}
+
+#[derive(Clone, Copy, Debug, PartialEq)]
+enum StoreKind {
+    MemLexical,
+    MemLexicalReversedListing,
+    MemUnordered(ListOrder),
+    Local,
+}
+
+impl StoreKind {
+    fn tag(&self) -> &'static str {
+        match self {
+            StoreKind::MemLexical => "memory-lexical",
+            StoreKind::MemLexicalReversedListing => "memory-lexical-flag-reversed-listing",
+            StoreKind::MemUnordered(_) => "memory-unordered",
+            StoreKind::Local => "local-fs",
+        }
+    }
+}
+
+async fn resolve_latest(
+    handler: &dyn CommitHandler,
+    store: &ObjectStore,
+    base: &Path,
+) -> Result<Result<(u64, String, ManifestNamingScheme), String>, String> {
+    let fut = handler.resolve_latest_location(base, store);
+    let r = std::panic::AssertUnwindSafe(fut);
+    match futures::FutureExt::catch_unwind(r).await {
+        Ok(Ok(loc)) => {
+            let mut v = loc.version;
+            if CORRUPT_LATEST.load(Ordering::Relaxed) && v > 1 {
+                v -= 1;
+            }
+            Ok(Ok((v, loc.path.to_string(), loc.naming_scheme)))
+        }
+        Ok(Err(e)) => Ok(Err(e.to_string())),
+        Err(p) => Err(if let Some(s) = p.downcast_ref::<String>() {
+            s.clone()
+        } else if let Some(s) = p.downcast_ref::<&str>() {
+            s.to_string()
+        } else {
+            "panic".into()
+        }),
+    }
+}
+
+fn judge_latest(
+    dir: &Dir,
+    kind: StoreKind,
+    base: &Path,
+    r: Result<Result<(u64, String, ManifestNamingScheme), String>, String>,
+) -> Result<(), Fail> {
+    let pre = format!("latest:{}:{}", kind.tag(), sname(dir.scheme));
+    let flags = dir.flags();
+    match r {
+        // a panic can only depend on which names are present: narrow by the one class that is
+        // not a plain version name and still passes `detect_scheme`
+        Err(p) => Err((format!("{pre}:panic:{}", if dir.detached.is_empty() { "no-detached-names" } else { "detached-present" }), p)),
+        Ok(Err(e)) => {
+            let c = err_class(&e);
+            if c == "error-v2-manifest-in-v1-directory" {
+                Err((format!("{pre}:{c}"), e))
+            } else {
+                Err((format!("{pre}:{c}:{flags}"), e))
+            }
+        }
+        Ok(Ok((v, path, scheme))) => {
+            if !dir.published.contains(&v) {
+                return Err((format!("{pre}:unpublished-version:{flags}"), format!("resolved {v}, published max {}", dir.max())));
+            }
+            let want = dir.max();
+            let must_be_max = kind != StoreKind::MemLexicalReversedListing || dir.scheme == V1;
+            if must_be_max && v != want {
+                return Err((format!("{pre}:not-the-highest-published-version:{flags}"), format!("resolved {v}, highest published {want}")));
+            }
+            let want_path = dir.scheme.manifest_path(base, v).to_string();
+            if path.trim_start_matches('/') != want_path.trim_start_matches('/') {
+                return Err((format!("{pre}:wrong-path:{flags}"), format!("{path} vs {want_path}")));
+            }
+            if scheme != dir.scheme {
+                return Err((format!("{pre}:wrong-scheme:{flags}"), format!("{:?}", scheme)));
+            }
+            Ok(())
+        }
+    }
+}
+
+async fn list_versions(handler: &dyn CommitHandler, store: &ObjectStore, base: &Path, sorted: bool) -> Result<Vec<u64>, String> {
+    let fut = async {
+        handler
+            .list_manifest_locations(base, store, sorted)
+            .map_ok(|l| l.version)
+            .try_collect::<Vec<u64>>()
+            .await
+            .map_err(|e| e.to_string())
+    };
+    match futures::FutureExt::catch_unwind(std::panic::AssertUnwindSafe(fut)).await {
+        Ok(r) => r,
+        Err(_) => Err("panic".into()),
+    }
+}
+
+async fn memory_case(report: &Report, sink: &Sink<'_>, i: u64, rng: &mut Rng) {
+    let dir = Dir::gen(rng);
+    let world = World::memory();
+    let actor = world.actor(0);
+    let base = Path::from("tbl");
+    let mut files = dir.files();
+    rng.shuffle(&mut files);
+    for f in &files {
+        let p = base.child("_versions").child(f.as_str());
+        if let Err(e) = world.backing.put(&p, Bytes::from_static(b"x").into()).await {
+            report.harness_error(&format!("cannot create {p}: {e}"));
+            return;
+        }
+    }
+    let kinds = [
+        StoreKind::MemLexical,
+        StoreKind::MemUnordered(ListOrder::AsIs),
+        StoreKind::MemUnordered(ListOrder::Reversed),
+        StoreKind::MemUnordered(ListOrder::Shuffled(rng.next_u64())),
+        StoreKind::MemLexicalReversedListing,
+    ];
+    let handlers: [(&str, Arc<dyn CommitHandler>); 2] =
+        [("conditional-put", Arc::new(ConditionalPutCommitHandler)), ("rename", Arc::new(RenameCommitHandler))];
+    let (hname, handler) = &handlers[(i % 2) as usize];
+    let mut sigparts = vec![];
+    for kind in kinds {
+        let (lexical, order) = match kind {
+            StoreKind::MemLexical => (true, ListOrder::AsIs),
+            StoreKind::MemLexicalReversedListing => (true, ListOrder::Reversed),
+            StoreKind::MemUnordered(o) => (false, o),
+            StoreKind::Local => unreachable!(),
+        };
+        *world.list_order.lock().unwrap() = order;
+        let os: Arc<dyn OSObjectStore> = actor.clone();
+        let store = ObjectStore::new(os, url::Url::parse("memory:///").unwrap(), None, None, false, lexical, 8, 3, None);
+        let r = resolve_latest(handler.as_ref(), &store, &base).await;
+        sigparts.push(format!("{:?}", r.as_ref().map(|x| x.as_ref().map(|y| y.0).map_err(|e| err_class(e)))));
+        if let Err((sig, what)) = judge_latest(&dir, kind, &base, r) {
+            sink.violation_lazy(&sig, &what, || {
+                json!({"seed": report.seed as i64, "case": i, "store": format!("{kind:?}"), "handler": hname, "directory": dir.brief(), "detail": what,
+                    "replay": format!("e_sets C33 --seed {} --case {i}", report.seed as i64)})
+            });
+        }
+        // listing of all manifest locations (skip the deliberately broken promise)
+        if kind != StoreKind::MemLexicalReversedListing {
+            let want_desc: Vec<u64> = dir.published.iter().rev().copied().collect();
+            match list_versions(handler.as_ref(), &store, &base, true).await {
+                Ok(got) => {
+                    let got_attached: Vec<u64> = got.iter().copied().filter(|v| !is_detached(*v)).collect();
+                    if got_attached != want_desc {
+                        let class = if { let mut g = got_attached.clone(); g.sort(); g.reverse(); g } == want_desc { "not-descending" } else { "wrong-version-set" };
+                        sink.violation_lazy(
+                            &format!("list-locations:{}:{}:{class}:{}", kind.tag(), sname(dir.scheme), dir.flags()),
+                            &format!("sorted listing yields {} versions (first {:?}), published {} (first {:?})", got.len(), got.first(), want_desc.len(), want_desc.first()),
+                            || json!({"seed": report.seed as i64, "case": i, "store": format!("{kind:?}"), "directory": dir.brief(), "listed": got.iter().take(40).collect::<Vec<_>>()}),
+                        );
+                    }
+                }
+                Err(e) => sink.violation_lazy(
+                    &format!("list-locations:{}:{}:{}:{}", kind.tag(), sname(dir.scheme), if e == "panic" { "panic" } else { err_class(&e) }, dir.flags()),
+                    &e,
+                    || json!({"seed": report.seed as i64, "case": i, "store": format!("{kind:?}"), "directory": dir.brief()}),
+                ),
+            }
+            report.count("listings_compared", 1);
+        }
+        report.count("latest_resolutions_compared", 1);
+    }
+    // resolve a specific version: the path of the scheme in use
+    *world.list_order.lock().unwrap() = ListOrder::AsIs;
+    {
+        let v = *rng.pick(&dir.published.iter().copied().collect::<Vec<_>>());
+        match handler.resolve_version_location(&base, v, actor.as_ref()).await {
+            Ok(loc) => {
+                let want = dir.scheme.manifest_path(&base, v);
+                if loc.path != want || loc.version != v {
+                    sink.violation_lazy(
+                        &format!("resolve-version:{}:wrong-location", sname(dir.scheme)),
+                        &format!("version {v}: {} (v{}) vs {want}", loc.path, loc.version),
+                        || json!({"seed": report.seed as i64, "case": i, "directory": dir.brief()}),
+                    );
+                }
+            }
+            Err(e) => sink.violation_lazy(&format!("resolve-version:{}:error", sname(dir.scheme)), &e.to_string(), || json!({"seed": report.seed as i64, "case": i, "directory": dir.brief()})),
+        }
+    }
+    // migration V1 -> V2 keeps the version set (and leaves everything else alone)
+    if dir.scheme == V1 {
+        let os: Arc<dyn OSObjectStore> = actor.clone();
+        let store = ObjectStore::new(os, url::Url::parse("memory:///").unwrap(), None, None, false, true, 8, 3, None);
+        let mut ok = true;
+        for round in 0..2 {
+            if let Err(e) = migrate_scheme_to_v2(&store, &base).await {
+                ok = false;
+                sink.violation_lazy(&format!("migrate:error:{}", dir.flags()), &e.to_string(), || json!({"seed": report.seed as i64, "case": i, "round": round, "directory": dir.brief()}));
+                break;
+            }
+        }
+        if ok {
+            let names: BTreeSet<String> = world
+                .list_paths()
+                .await
+                .into_iter()
+                .filter_map(|p| p.rsplit('/').next().map(|s| s.to_string()))
+                .collect();
+            let mut want: BTreeSet<String> = dir.published.iter().map(|v| fname(V2, *v)).collect();
+            want.extend(dir.staging.iter().cloned());
+            want.extend(dir.junk.iter().cloned());
+            if names != want {
+                let versions: BTreeSet<u64> = names.iter().filter_map(|n| (ManifestNamingScheme::detect_scheme(n) == Some(V2)).then(|| V2.parse_version(n)).flatten()).collect();
+                let class = if versions != dir.published { "version-set-changed" } else { "other-files-changed" };
+                sink.violation_lazy(
+                    &format!("migrate:{class}:{}", dir.flags()),
+                    &format!("{} files after migration, expected {}", names.len(), want.len()),
+                    || json!({"seed": report.seed as i64, "case": i, "directory": dir.brief(), "after": names.iter().take(50).collect::<Vec<_>>()}),
+                );
+            } else {
+                let mut d2 = dir.clone();
+                d2.scheme = V2;
+                let r = resolve_latest(handler.as_ref(), &store, &base).await;
+                if let Err((sig, what)) = judge_latest(&d2, StoreKind::MemLexical, &base, r) {
+                    sink.violation_lazy(&format!("after-migrate:{sig}"), &what, || json!({"seed": report.seed as i64, "case": i, "directory": dir.brief()}));
+                }
+            }
+            report.count("migrations_checked", 1);
+        }
+    }
+    let nt = dir.published.len() >= 2;
+    report.case(nt.then(|| hash_of(&("mem", sname(dir.scheme), &dir.published, dir.flags(), sigparts))));
+    if i % 211 == 5 && report.want_sample() {
+        report.sample(json!({"part": "memory-directory", "case": i, "directory": dir.brief(), "expected_latest": dir.max()}));
+    }
+}
+
+async fn local_case(report: &Report, sink: &Sink<'_>, i: u64, rng: &mut Rng) {
+    let dir = Dir::gen(rng);
+    let tmp = match tempfile::Builder::new().prefix("e_sets-c33-").tempdir() {
+        Ok(t) => t,
+        Err(e) => {
+            report.harness_error(&format!("tempdir: {e}"));
+            return;
+        }
+    };
+    let vdir = tmp.path().join("_versions");
+    if let Err(e) = std::fs::create_dir_all(&vdir) {
+        report.harness_error(&format!("mkdir: {e}"));
+        return;
+    }
+    let mut files = dir.files();
+    rng.shuffle(&mut files);
+    for f in &files {
+        if let Err(e) = std::fs::write(vdir.join(f), b"x") {
+            report.harness_error(&format!("write {f}: {e}"));
+            return;
+        }
+    }
+    let store = ObjectStore::local();
+    let base = Path::from_filesystem_path(tmp.path()).unwrap();
+    let handler = ConditionalPutCommitHandler;
+    let r = resolve_latest(&handler, &store, &base).await;
+    let sigpart = format!("{:?}", r.as_ref().map(|x| x.as_ref().map(|y| y.0).map_err(|e| err_class(e))));
+    if let Err((sig, what)) = judge_latest(&dir, StoreKind::Local, &base, r) {
+        sink.violation_lazy(&sig, &what, || {
+            json!({"seed": report.seed as i64, "case": i, "store": "local", "directory": dir.brief(), "detail": what,
+                "replay": format!("e_sets C33 --seed {} --case {i}", report.seed as i64)})
+        });
+    }
+    let want_desc: Vec<u64> = dir.published.iter().rev().copied().collect();
+    match list_versions(&handler, &store, &base, true).await {
+        Ok(got) => {
+            let got_attached: Vec<u64> = got.iter().copied().filter(|v| !is_detached(*v)).collect();
+            if got_attached != want_desc {
+                sink.violation_lazy(
+                    &format!("list-locations:local-fs:{}:wrong:{}", sname(dir.scheme), dir.flags()),
+                    &format!("sorted listing yields {:?}.., published {:?}..", got.iter().take(5).collect::<Vec<_>>(), want_desc.iter().take(5).collect::<Vec<_>>()),
+                    || json!({"seed": report.seed as i64, "case": i, "directory": dir.brief()}),
+                );
+            }
+        }
+        Err(e) => sink.violation_lazy(
+            &format!("list-locations:local-fs:{}:{}:{}", sname(dir.scheme), if e == "panic" { "panic" } else { err_class(&e) }, dir.flags()),
+            &e,
+            || json!({"seed": report.seed as i64, "case": i, "directory": dir.brief()}),
+        ),
+    }
+    report.count("latest_resolutions_compared", 1);
+    report.count("listings_compared", 1);
+    let nt = dir.published.len() >= 2;
+    report.case(nt.then(|| hash_of(&("local", sname(dir.scheme), &dir.published, dir.flags(), sigpart))));
+}
+
+thread_local! {
+    static RT: tokio::runtime::Runtime = tokio::runtime::Builder::new_current_thread().enable_all().build().unwrap();
+}
+
+fn dir_case(report: &Report, sink: &Sink, i: u64) {
+    let mut rng = Rng::for_case(report.seed, i);
+    RT.with(|rt| {
+        rt.block_on(async {
+            if i % 5 == 0 {
+                local_case(report, sink, i, &mut rng).await
+            } else {
+                memory_case(report, sink, i, &mut rng).await
+            }
+        })
+    });
+}
+
+fn selftest(args: &Args) -> i32 {
+    quiet_panics();
+    let mut a = args.clone();
+    a.prop = "C33-selftest".into();
+    std::env::set_var("VERIF_EVIDENCE_OUT", "/dev/null");
+    let report = Report::new(&a, "exploration", "selftest", (60, 60));
+    let base = Sink::collecting();
+    for i in 1..60 {
+        dir_case(&report, &base, i);
+    }
+    let sink = Sink::collecting();
+    CORRUPT_LATEST.store(true, Ordering::Relaxed);
+    for i in 1..60 {
+        dir_case(&report, &sink, i);
+    }
+    CORRUPT_LATEST.store(false, Ordering::Relaxed);
+    let new: Vec<String> = sink.signatures().into_iter().filter(|s| !base.signatures().contains(s)).collect();
+    println!("SELFTEST corrupted-latest new signatures={}", new.len());
+    let caught2 = check_order(5, 5).is_ok() && {
+        // a name that does not invert must be flagged: feed the parser a V1 name under V2
+        V2.parse_version(&fname(V1, 12)) != Some(12)
+    };
+    println!("SELFTEST naming sanity={caught2}");
+    if !new.is_empty() && caught2 {
+        println!("SELFTEST C33 ok");
+        0
+    } else {
+        println!("SELFTEST C33 FAILED");
+        2
+    }
+}
+
+pub fn run(args: &Args) -> i32 {
+    if is_selftest(args) {
+        return selftest(args);
+    }
+    quiet_panics();
+    arm_watchdog(args.tier.pick(300, 1500));
+    let rule = "Naming: every boundary version (0,1,2^k-1/2^k/2^k+1 for k<=63, 10^k neighbourhoods up to 10^19, 2^63 and u64::MAX neighbourhoods; enumerated completely) plus seeded random versions: parse(name(v)) == v for attached v under V1 and V2, detached names never parse, detect_scheme / detect_scheme_staging, V2 reverse string order. Discovery: seeded random `_versions/` contents (scheme V1|V2; dense / tail-after-cleanup / sparse / digit-length-boundary version sets up to 2^63-1; staging `<name>-<uuid>`, `.tmp_*`, detached `d*` (V2 only), junk) resolved through ConditionalPut/Rename commit handlers on a monitored memory store with list_is_lexically_ordered = true (listing as is; reversed listing only checked for 'a published version') and = false (as is / reversed / shuffled), and on a local temp dir; list_manifest_locations, resolve_version_location, migrate_scheme_to_v2. Non-trivial: directory with >= 2 published versions; signature = (store, scheme, version set, file classes, outcomes).";
+    let report = Report::new(args, "exploration", rule, (40, 480)).with_min_nontrivial(100);
+    let sink = Sink::to_report(&report);
+    if let Some(c) = args.extra.get("case").and_then(|c| c.parse::<u64>().ok()) {
+        dir_case(&report, &sink, c);
+        sink.flush();
+        return report.finish();
+    }
+    pure_part(&report, &sink, args.tier.pick(200_000, 5_000_000));
+    report.exhaustive(true);
+    report.set("t_after_naming_s", json!((report.elapsed_s() * 10.0).round() / 10.0));
+    let max_cases = args.tier.pick(100_000u64, 5_000_000);
+    fan_out(n_threads(), 1, max_cases, &|| report.time_left(), &|i| dir_case(&report, &sink, i));
+    report.assume("one naming scheme per directory; detached names only in V2 directories; files whose name ends in `.manifest` are always manifests written by Lance");
+    report.assume("listing order is only permuted for stores opened with list_is_lexically_ordered=false; with the flag set a reversed listing is only required to resolve to a published version");
+    sink.flush();
+    report.finish()
+}
+
+#[allow(dead_code)]
+fn _unused(_: BTreeMap<u8, u8>) {}
